@@ -7,7 +7,8 @@ DRIVER = "c16"
 MODEL = "C16"
 MODEL_QUALID = "Model.Reconnect.run_script"
 FORMAT = ("script [has_max(bit0: 1 max_attempts(max), 0 unlimited; has_max//2: 0 one service per request, 1 all requests through one ReconnectService, 2 through clones of one); max; "
-          "pred_mode(0 none,1 error flag,2 code even,3 never); policy(0 None,1 Fixed p1,2 Custom table,3 exponential p1..p2 ms); p1; p2; retry_on_reconnect; nreq; L; "
+          "pred_mode(0 none,1 error flag,2 code even,3 never); policy(0 None,1 Fixed p1,2 Custom table,3 exponential p1..p2 ms); p1; p2; "
+          "retry(bit0: retry_on_reconnect; //2 != 0: calls beyond L fail with a connection failure for ever); nreq; L; "
           "delay x L (Custom: delay for attempt k); nreq blocks [(okind(0 ok,1 err flagged connection failure,2 err flagged other) payload gated(0 immediate,1 on Complete) ready(0 ok,1 error 100000+payload,2 pending until MakeReady)) x L]; "
           "(op a)*] op 1=Poll a 2=Advance a(ms) 3=Complete a 4=MakeReady a 5=Call a. Durations (p1 of Fixed, delay table): below 2^40 milliseconds, 2^40+n = n nanoseconds. "
           "trace: per event [r(-1 no poll,0 pending,1 Ok,2 Err,5 poll panicked,9 nothing to poll); kind(1 MaxAttemptsExceeded,2 ConnectionFailed,3 ConnectionFailedNoRetry,4 ServiceError); payload; attempts; wake mask; "
@@ -17,14 +18,16 @@ RULE = ("structured schedules (call / complete / poll / advance-by-the-delay / m
         "requests through separate services, one shared service or its clones) + uniformly random event lists "
         "+ all outcome streams up to a small length x max_attempts {0,1,2,none} x policy {none,fixed,custom,exponential} x retry flag x predicate "
         "+ delays that are not whole milliseconds (1 ns .. 2.9 ms, polled every millisecond) + long delays (minutes to 2^36 ms, polled one millisecond before and at the deadline) "
-        "+ bursts of 130-300 zero-delay failures in one poll (tokio's cooperative budget of 128 per poll, incl. gated calls and a positive delay at the budget edge); "
+        "+ bursts of 130-300 zero-delay failures in one poll (tokio's cooperative budget of 128 per poll, incl. gated calls and a positive delay at the budget edge) "
+        "+ one run of 10^4 calls compared with the model, and marathon runs of 66000-70000 calls (max_attempts 65600 / 70000 / unlimited) judged by the monitor alone "
+        "(the unary-nat model cannot run them; model_input gives the model an empty script and compare skips them); "
         "non-trivial = some request saw a reconnectable failure (a reconnect decision is taken)")
 TRUSTED = ["tokio::time::sleep (ready at the first poll at or after the deadline rounded UP to a whole millisecond), oneshot wake-ups, and tokio's cooperative budget "
            "(128 completed Sleep/oneshot operations per poll of a task; the next one returns Pending after waking the task itself): modelled in Lib/TokioTime.v + Model/Reconnect.v drive, tied to the library only by this correspondence run",
            "the scripted inner service, error type (Display-parsed by the predicates) and policy closures in harness/src/bin/c16.rs mirror Model/Reconnect.v run_script",
            "ReconnectPolicy::exponential modelled as min(initial * 2^attempt, max) for whole-ms values (the f64 arithmetic itself is C14)"]
 ASSUMPTIONS = ["polls and clock advances happen at whole-millisecond instants (delays are arbitrary nanosecond values below 2^40 ms; Duration::MAX, which tokio turns into a 30-year sleep, is not driven)",
-               "fewer than 2^32 - 1 reconnectable failures per request (attempt: saturating u32 in the code, nat in the model)",
+               "runs of 2^32 failures cannot be executed by a check: the counter's behaviour there (saturation, an overflowing count exceeds every max_attempts, repo fixes 0c0148b and 4ccf9b3) is modelled exactly and proved (C16_exceeded_u32, C16_overflowing_count_exceeds_every_max) but a revert of those fixes is not found by this check; harness/src/bin/c16_soak.rs executes it in ~13 minutes",
                "every poll of a call future starts with the cooperative budget of a fresh task poll (128), as under any tokio executor; a future polled inside tokio::task::unconstrained is outside the model",
                "the jittered policy (ExponentialRandom) is covered by the single-request theorems (any delay function of the attempt number) but not by the correspondence run; in the step machine all requests share one policy function",
                "the `attempts` field and the variant of the returned ReconnectError are pinned by the model comparison only: the property asks for an error wrapping the last inner error"]
@@ -71,7 +74,7 @@ def parse(s):
         elif op == 2:
             evs.append((op, a))
     return dict(max=(max(0, mx) if has_max % 2 else None), handle=has_max // 2, pred=pred, policy=policy, p1=p1, p2=max(0, p2),
-                retry=retry != 0, n=n, L=L, delays=delays, reqs=reqs, evs=evs)
+                retry=retry % 2 != 0, tail=retry // 2 != 0, n=n, L=L, delays=delays, reqs=reqs, evs=evs)
 
 
 W = 10
@@ -100,7 +103,15 @@ def decode(s, t):
 
 def entry(p, i, k):
     ent = p["reqs"][i]
-    return ent[k] if k < len(ent) else (0, 0, 0, 0)
+    return ent[k] if k < len(ent) else ((1, k, 0, 0) if p["tail"] else (0, 0, 0, 0))
+
+
+def terminal(p, i, k):
+    """the outcome of call k ends the request whatever happens next: success, an error the predicate does not
+    classify as a connection failure, a failure beyond max_attempts, or no delay from the policy"""
+    e = entry(p, i, k)
+    return (e[0] == 0 or not reconnectable(p, e) or (p["max"] is not None and k + 1 > p["max"])
+            or delay(p, k + 1) is None)
 
 
 def reconnectable(p, e):
@@ -129,9 +140,12 @@ def monitor(s, t):
     last inner error (which variant and its `attempts` counter are not the property's business; the
     readiness error of the service before a retry is accepted, as the repaired code returns it);
     it gives up after a connection failure only for a reason the statement allows (max_attempts,
-    no delay from the policy, retry_on_reconnect off, service not ready);
+    no delay from the policy, retry_on_reconnect off, service not ready); a request whose newest call
+    ended with an outcome that ends it (success, other error, beyond max_attempts, no delay) has returned,
+    or at least has woken itself to do so;
     (e) the published state is connected right after a success, and - for ONE request, as the
-    statement says - not connected while a connection failure of that request is being handled.
+    statement says: scripts in which exactly one request is ever submitted - not connected while a
+    connection failure of that request is being handled.
     Which non-connected value is published, the state before anything happened, after a
     no-retry return etc. are pinned by the model comparison only."""
     d = decode(s, t)
@@ -143,6 +157,8 @@ def monitor(s, t):
         return "inner service called %d times on an instance that was not polled ready" % viol
     returned = {}
     now = 0
+    submitted = sorted({a for (op, a) in p["evs"] if op in (1, 5)})
+    single = submitted[0] if len(submitted) == 1 else None     # "for one request": exactly one was ever submitted
     for k, ((op, a), o) in enumerate(zip(p["evs"], evt)):
         r, kind, payload, attempts, mask, cs, started, finished = o[:8]
         if op == 2:
@@ -156,9 +172,9 @@ def monitor(s, t):
                 returned[a] = (r, kind, payload, attempts, k, now)
             if r == 1 and cs != 0:
                 return "request %d succeeded but the published state is %d, not connected" % (a, cs)
-        if n == 1 and finished >= 1 and 0 not in returned:
+        if single is not None and finished >= 1 and single not in returned:
             # one request: it has observed the outcome of call finished-1 and has not returned
-            last = entry(p, 0, finished - 1)
+            last = entry(p, single, finished - 1)
             if reconnectable(p, last) and cs == 0:
                 return "a connection failure is being handled (call %d) but the published state is connected (event %d)" % (finished - 1, k)
     for i in range(n):
@@ -166,6 +182,11 @@ def monitor(s, t):
         nc = len(cs_)
         if p["max"] is not None and nc > p["max"] + 1:
             return "request %d: %d inner calls with max_attempts %d" % (i, nc, p["max"])
+        if (nc >= 1 and i not in returned and cs_[nc - 1][1] >= 0 and terminal(p, i, nc - 1)
+                and evt and not (evt[-1][4] >> i) & 1):
+            # the outcome was observed inside a poll of the request; the future is still pending and nothing
+            # has woken it (a future that merely yields once more before returning has its wake flag set)
+            return "request %d observed the terminal outcome %s of call %d but has not returned" % (i, entry(p, i, nc - 1)[:2], nc - 1)
         for k in range(nc - 1):
             e = entry(p, i, k)
             if not reconnectable(p, e):
@@ -242,6 +263,8 @@ def corpus():
                      [(1, 0), (3, 0), (1, 0), (3, 0), (1, 0), (1, 0)]))
     out.append(build(0, 0, 0, 2, 0, 0, 1, [0] * 129 + [3] + [0] * 20, [[e(1, k) for k in range(150)]],
                      [(5, 0), (1, 0), (1, 0), (2, 3), (1, 0), (1, 0)]))
+    # 300 calls on a table of 2: the tail fails with a connection failure for ever (retry = 3), max_attempts 299
+    out.append(build(1, 299, 0, 1, 0, 0, 3, [0, 0], [[e(1, 1), e(1, 2)]], [(1, 0), (1, 0), (1, 0), (1, 0)]))
     # two requests through ONE ReconnectService / through clones of it
     for hm in (1, 2):
         out.append(build(1 + 2 * hm, 5, 0, 1, 1, 0, 1, [0, 0, 0], [[e(1, 1), e(0, 2, 0, 1), e(0, 3)], [e(1, 11, 1), e(0, 12, 1, 2), e(0, 13)]],
@@ -408,6 +431,31 @@ def coop_burst(rng):
     return build(has_max + 2 * rng.choice([0, 0, 1, 2]), mx, 0, policy, 0, rng.choice([0, 0, 5]), 1, delays, reqs, evs)
 
 
+def long_run(rng, calls, mx):
+    """one request, zero Fixed delay, every call fails with a connection failure (tail mode): 128 calls per poll.
+    mx None = unlimited (never returns), else max_attempts = mx (MaxAttemptsExceeded after mx + 1 calls)"""
+    polls = calls // 128 + 3
+    return build(0 if mx is None else 1, mx or 0, 0, 1, 0, 0, 3, [], [[]], [(1, 0)] * polls)
+
+
+MARATHON = 20000          # above this many calls the model is not run (unary nat): judged by the monitor alone
+
+
+def is_marathon(s):
+    p = parse(s)
+    return p["tail"] and sum(1 for (op, a) in p["evs"] if op == 1) * 128 > MARATHON and (p["max"] is None or p["max"] > MARATHON)
+
+
+def model_input(s, impl_trace):
+    return [] if is_marathon(s) else s
+
+
+def compare(s, impl, model):
+    if is_marathon(s):
+        return None
+    return None if impl == model else "traces differ"
+
+
 def exhaustive(maxlen, maxes, policies, retries=(0, 1), preds=(0, 1)):
     """every outcome stream up to maxlen over {ok, connection failure, other error}: one request, prompt polling"""
     for L in range(1, maxlen + 1):
@@ -434,6 +482,7 @@ def generate(rng, tier):
         out += [submilli(rng) for _ in range(150)]
         out += [long_delays(rng) for _ in range(60)]
         out += [coop_burst(rng) for _ in range(80)]
+        out += [long_run(rng, 10001, 10000), long_run(rng, 65700, 65600), long_run(rng, 70100, 70000), long_run(rng, 66000, None)]
     else:
         out += [structured(rng) for _ in range(30000)]
         out += [unstructured(rng, 80) for _ in range(10000)]
@@ -441,6 +490,8 @@ def generate(rng, tier):
         out += [submilli(rng) for _ in range(3000)]
         out += [long_delays(rng) for _ in range(1000)]
         out += [coop_burst(rng) for _ in range(600)]
+        out += [long_run(rng, 10001, 10000), long_run(rng, 16001, 16000), long_run(rng, 65700, 65600), long_run(rng, 70100, 70000),
+                long_run(rng, 131200, 131100), long_run(rng, 66000, None)]
     return out
 
 
@@ -461,6 +512,8 @@ def classify(s, t):
     p = parse(s)
     out = ["nreq%d" % p["n"], "max_%s" % ("none" if p["max"] is None else min(p["max"], 3)), "pred%d" % p["pred"],
            "policy%d" % p["policy"], "retry_%s" % ("on" if p["retry"] else "off"), "handle_mode_%d" % p["handle"]]
+    if p["tail"]:
+        out.append("tail_fails_for_ever")
     ds = ([ns_of(p["p1"])] if p["policy"] == 1 else p["delays"] if p["policy"] == 2 else [])
     if any(x % MS for x in ds):
         out.append("has_submillisecond_delay")
@@ -469,7 +522,7 @@ def classify(s, t):
     if d:
         _, evt, calls, _ = d
         m = max([len(c) for c in calls] + [0])
-        out.append("most_calls_%s" % (min(m, 5) if m < 129 else "129plus"))
+        out.append("most_calls_%s" % (min(m, 5) if m < 129 else "129plus" if m < 10000 else "10000plus" if m < 65536 else "65536plus"))
         if any(o[0] == 0 and o[4] & (1 << a) for (op, a), o in zip(p["evs"], evt) if op == 1):
             out.append("poll_ended_self_woken_(coop_budget)")
         for o in evt:
